@@ -221,6 +221,7 @@ def run(ctx):
         from . import c02_frame
         c02_frame.run_frame(ctx)
         c02_frame.run_frame_writers(ctx)
+        c02_frame.run_login_writers(ctx)
         c02_frame.run_header_structs(ctx)
     except ImportError:
         ctx.assume("frame.* rules not built yet")
